@@ -120,7 +120,8 @@ type quicAttempt struct {
 
 func TestQUICSimnet(t *testing.T) {
 	name := t.Name()
-	hx.Check(t, 240, 6000, 0, func(rt *rapid.T) {
+	hx.Check(t, 320, 30000, 0, func(rt *rapid.T) {
+		ex0 := relaxedUsed + excludedMasks
 		w := drawWorld(rt)
 		// one address family per case (the simulated node has one UDP socket)
 		v6 := rapid.Bool().Draw(rt, "v6")
@@ -270,6 +271,9 @@ func TestQUICSimnet(t *testing.T) {
 			ls = append(ls, k)
 		}
 		sort.Strings(ls)
+		if relaxedUsed+excludedMasks != ex0 {
+			stats.Excluded(name) // a known-finding exclusion shaped this case
+		}
 		fp := w.fingerprint() + fmt.Sprint(v6, reopen) + strings.Join(hist, ";")
 		for _, a := range attempts {
 			fp += fmt.Sprintf("|%d@%s/%v", a.peer, w.ips[a.ip], a.outbound)
